@@ -313,6 +313,13 @@ C18_AsleepMeansFrozen(st) ==
 \*      without at least one objective evaluation"  (pc = "sprout": the post-metaepoch consult said FALSE)
 IdleMetaepoch(st)        == st.pc = "sprout" /\ (\E d \in DOMAIN st.D0 : st.D0[d].active) /\ st.stepCalls = 0
 AllActiveWereAsleep(st)  == \A d \in DOMAIN st.D0 : st.D0[d].active => AsleepAtStart(st, d)
+\* every awake active deme did run its metaepoch, and all of them are engines that re-use the fitness of an
+\* unchanged genome (population.py:22-25, de.py:34-39): a population collapsed to float precision evaluates nothing
+AllAwakeRanWithoutChange(st) ==
+    /\ \E d \in DOMAIN st.D0 : AwakeAtStart(st, d)
+    /\ \A d \in DOMAIN st.D0 : AwakeAtStart(st, d) =>
+          /\ d \in Ids(st) /\ st.D[d].me = st.D0[d].me + 1
+          /\ Eng(st, d) \in {"SEA", "DE", "SHADE"}
 C18_NoIdleMetaepoch(st)  == ~IdleMetaepoch(st)
 \* the same, except for the idle metaepochs of known finding KF-C18-stall (every active deme was asleep)
 C18_NoIdleUnlessAllAsleep(st) == IdleMetaepoch(st) => AllActiveWereAsleep(st)
